@@ -95,15 +95,15 @@ fn c07_o2_visit_closest_once() {
         q.visited.insert(cand(1).address());
     }
     q.visit_closest(&mut s);
-    let sent = unsafe { SENT_N };
+    let sent = unsafe { SENT_N.v };
     assert!(sent == if pre { 2 } else { 3 }, "C07.O2 one request per unvisited close candidate");
-    assert!(unsafe { SENT_TO[0] } == Some(cand(0).address()), "C07.O2 requests go to the candidates closest first");
-    assert!(unsafe { SENT_TO[sent - 1] } == Some(cand(2).address()), "C07.O2 requests go to the candidates closest first");
+    assert!(unsafe { SENT_TO.v[0] } == Some(cand(0).address()), "C07.O2 requests go to the candidates closest first");
+    assert!(unsafe { SENT_TO.v[sent - 1] } == Some(cand(2).address()), "C07.O2 requests go to the candidates closest first");
     assert!(q.inflight_requests.len() == sent, "C07.O2 every request is tracked");
     assert!(q.closest_candidates().is_empty(), "C07.O2 nothing left to visit");
     q.add_candidate(cand(1));
     q.visit_closest(&mut s);
-    assert!(unsafe { SENT_N } == sent, "C07.O2 an address is never queried twice by the same lookup");
+    assert!(unsafe { SENT_N.v } == sent, "C07.O2 an address is never queried twice by the same lookup");
     kani::cover!(pre);
     kani::cover!(!pre);
     std::mem::forget(q);
@@ -165,5 +165,9 @@ impl IterativeQuery {
     }
     pub(crate) fn kani_votes(&self) -> usize {
         self.public_address_votes.len()
+    }
+    /// mark an address as already queried (what `visit` does after sending)
+    pub(crate) fn kani_mark_visited(&mut self, a: SocketAddrV4) {
+        self.visited.insert(a);
     }
 }
